@@ -47,11 +47,12 @@ def _invariance(prop: str) -> dict:
         shutil.rmtree(tmp, ignore_errors=True)
     # structural transformations of the whole tree: instance keys may change, but nothing may become fail/undecided
     from . import transforms
-    for kind in ("swap-if-else", "else-after-return", "split-and", "name-the-test"):
+    for kind in ("swap-if-else", "else-after-return", "split-and", "name-the-test", "rename-private"):
         tmp = tempfile.mkdtemp(prefix=f"verif-invariance-{prop}-")
         try:
             shutil.copytree(os.path.join(repo_root(), "rope"), os.path.join(tmp, "rope"), ignore=shutil.ignore_patterns("__pycache__"))
-            sites = transforms.transform_tree(tmp, kind)
+            # rename-private: every private function / class a rule mentions by name is renamed in the whole tree (found again by shape)
+            sites = transforms.rename_private_tree(tmp) if kind == "rename-private" else transforms.transform_tree(tmp, kind)
             try:
                 new = [list(x) for x in sorted(set(keys(tmp)) - set(a)) if x[1] != "ok"]
             except Exception as e:
